@@ -277,7 +277,49 @@ def writer_grammar(F, rep):
     rep.note("writer sites outside the statement's domain (strings > 255 bytes, non-i32 numbers, arrays/bools/null): try_into().unwrap() in write_utf8/write_map and unimplemented!() in write_map")
 
 
+def stored_unmodified_rule(F, rep, rule="toplevel.reader-stored"):
+    """the metadata slot holds the map read_map returned, itself: parse_metadata binds `ubjson::read_map(..)?` and stores that
+    binding as `Some(..)`, with no mutable use of it in between (`get_mut`, `insert`, `remove`, `&mut`, index assignment) — a value
+    patched on the way (from the frames parsed so far, the options, ..) differs between a full and a skip-frames read and from the file"""
+    b = F.body("io::slippi::de::parse_metadata")
+    if b is None:
+        rep.ob(rule, False, "io::slippi::de::parse_metadata", "missing", "parse_metadata not found")
+        return
+    root = b["tir"]["value"]
+    env = tir.LetEnv(root)
+    src = None
+    for n in tir.walk(root):
+        if n.get("k") == "Let" and n["pat"].get("k") == "Bind" and n.get("init") is not None:
+            i = L.strip_try(n["init"])
+            if i.get("k") == "Call" and (declared(i) or "").endswith("ubjson::de::read_map") or (i.get("k") == "Call" and (declared(i) or "").endswith("ubjson::read_map")):
+                src = n["pat"]
+    stores = [n for n in tir.walk(root) if n.get("k") == "Assign" and (tir.place(n["l"]) or "").endswith("game.metadata")]
+    ok = False
+    why = "no `let m = ubjson::read_map(..)?` / single store found"
+    if src is not None and len(stores) == 1:
+        r = strip(stores[0]["r"])
+        direct = r.get("k") == "Call" and (declared(r) or "").endswith("Some") and len(r.get("args", [])) == 1 and strip(r["args"][0]).get("k") == "Path" and strip(r["args"][0]).get("id") == src.get("id")
+        muts = []
+        for x in tir.walk(root):
+            if x.get("k") == "MethodCall" and strip(x["recv"]).get("id") == src.get("id") and (x["recv"].get("aty") or "").startswith("&mut"):
+                muts.append(x["method"])
+            if x.get("k") == "AddrOf" and x.get("mut") and strip(x["e"]).get("id") == src.get("id"):
+                muts.append("&mut")
+            if x.get("k") in ("Assign", "AssignOp") and any(y.get("k") == "Path" and y.get("id") == src.get("id") for y in tir.walk(x["l"])):
+                muts.append("assignment")
+        ok = direct and not muts
+        why = "stored as %s; mutable uses of the map before it is stored: %s" % (tir.pretty(r)[:60], muts)
+    elif src is None and len(stores) == 1:
+        # `state.game.metadata = Some(ubjson::read_map(..)?)` without a binding
+        r = strip(stores[0]["r"])
+        inner = L.strip_try(r["args"][0]) if r.get("k") == "Call" and (declared(r) or "").endswith("Some") and len(r.get("args", [])) == 1 else {}
+        ok = inner.get("k") == "Call" and (declared(inner) or "").endswith("read_map")
+        why = "stored as %s" % tir.pretty(r)[:60]
+    rep.ob(rule, ok, "io::slippi::de::parse_metadata", "stored", "the metadata slot must hold the map read from the stream, unmodified (%s)" % why)
+
+
 def toplevel_rule(F, rep):
+    stored_unmodified_rule(F, rep)
     import model
     ev = model.load_spec("events.json")
     key = ev["metadata_key"]
